@@ -403,7 +403,15 @@ fn case(i: u64, rng: &mut Rng, st: &mut State, full: bool) {
                 b[off] ^= mask;
                 match wfv::catch(|| Proof::from_bytes(&b)) {
                     Ok(Ok(p2)) => match stark::verify_proof(fd, hs, &shape, &values, p2, &acc, false) {
-                        Ok(Ok(())) => st.violation(format!("relabelled-proof-accepted:{what}"), describe(0, 0, "statement data edited inside the proof", format!("byte {off} ^ {mask:#x}, metadata of {} bytes", shape.meta.len()))),
+                        Ok(Ok(())) => {
+                            // every trace column constant and no randomized auxiliary segment: every vector the prover commits
+                            // to is constant and nothing in the proof depends on the coin any more, so a relabelled statement
+                            // re-draws positions whose opening may have the same shape (the recorded finding of C03, seen from
+                            // the statement side); any other accepted relabelling keeps its own signature
+                            let constant = shape.aux.is_none() && cols.iter().all(|c| c.iter().all(|x| *x == c[0]));
+                            let sig = if constant { "relabelled-proof-accepted:every-trace-column-constant".to_string() } else { format!("relabelled-proof-accepted:{what}") };
+                            st.violation(sig, describe(0, 0, "statement data edited inside the proof", format!("{what}: byte {off} ^ {mask:#x}, metadata of {} bytes", shape.meta.len())))
+                        },
                         Ok(Err(_)) => st.count(&format!("rejected.relabelled_{what}")),
                         Err(_) => st.count("relabelled.verifier_panic(see C06)"),
                     },
